@@ -247,6 +247,38 @@ theorem advertised_eq_xep_hash_of_answer {β : Type} (H : Str → β) (c : Clien
   have e := code_eq_spec (capabilities c) hx hp
   simp [answeredInfo, advertisedVer, isPrefixOf_self_append, ver, e]
 
+/-- **Over any history, every emitted presence advertises the hash of what is answered at that moment**: whatever
+sequence of reconfigurations, publications (with a fresh presence or one derived from `clientPresence()`, which already
+carries an older `ver`) and queries, each presence carries `ver` = hash of `capabilities()` of the configuration in
+force when it is emitted, and a disco#info `get` for `node#anything` under that configuration is answered with an info
+set of exactly that `ver`.  (Between two publications the advertised hash can be stale; nothing is claimed there.) -/
+theorem every_published_ver_is_answered {β : Type} (H : Str → β) (s : ClientSt β) (ops : List ClientOp)
+    (c : ClientCfg) (v : β) (hm : (c, ClientOut.presence v) ∈ (clientRun H s ops).2) :
+    v = advertisedVer H c ∧ ∀ x : Str, (answeredInfo c (c.node ++ '#' :: x)).map (ver H) = some v := by
+  induction ops generalizing s with
+  | nil => simp [clientRun] at hm
+  | cons op ops ih =>
+    simp only [clientRun, mem_append, mem_map] at hm
+    rcases hm with ⟨o, ho, he⟩ | hm
+    · cases op with
+      | configure c' => simp [clientStep] at ho
+      | query n => simp only [clientStep, mem_singleton] at ho; subst ho; simp at he
+      | publish d =>
+        simp only [clientStep, mem_singleton] at ho
+        subst ho
+        simp only [Prod.mk.injEq, ClientOut.presence.injEq] at he
+        obtain ⟨rfl, rfl⟩ := he
+        exact ⟨rfl, fun x => (advertised_eq_answered H s.cfg x).1⟩
+    · exact ih _ hm
+
+/-- …in particular a publication derived from the previous presence after a reconfiguration carries the NEW hash,
+and the query that follows is answered with it. -/
+theorem republish_after_reconfigure {β : Type} (H : Str → β) (s : ClientSt β) (c' : ClientCfg) (derived : Bool) (x : Str) :
+    (clientRun H s [.publish false, .configure c', .publish derived, .query (c'.node ++ '#' :: x)]).2 =
+      [(s.cfg, .presence (advertisedVer H s.cfg)), (c', .presence (advertisedVer H c')),
+       (c', .answer (some (advertisedVer H c')))] := by
+  simp [clientRun, clientStep, answeredInfo, isPrefixOf_self_append, advertisedVer]
+
 /-- **The answer lists every feature once** (XEP-0115 §5.4 item 4 makes a verifying peer reject a repeated feature),
 whatever the client and its extensions contribute — since eee8133. -/
 theorem reply_features_nodup (c : ClientCfg) : (capabilities c).feats.Nodup :=
@@ -312,6 +344,12 @@ def cfgA : ClientCfg :=
     extIdentities := [[], [⟨"automation".toList, "rpc".toList, [], []⟩]],
     infoForm := some formA, node := "https://example.org/client".toList }
 example : PlainForm cfgA.infoForm ∧ DistinctKeys cfgA.infoForm := ⟨by decide, by decide⟩
+/-- a history in which the second presence really differs from the first (so the statement above is not about a constant) -/
+example :
+    ((clientRun (fun s => s) { cfg := cfgA } [.publish false, .configure { cfgA with name := ['x'] }, .publish true]).2.map (·.2)).length = 2 ∧
+    ((clientRun (fun s => s) { cfg := cfgA } [.publish false, .configure { cfgA with name := ['x'] }, .publish true]).2.map (·.2))[0]? ≠
+    ((clientRun (fun s => s) { cfg := cfgA } [.publish false, .configure { cfgA with name := ['x'] }, .publish true]).2.map (·.2))[1]? := by
+  decide +kernel
 /-- the former repeated-feature witness (fixed by eee8133): `jabber:x:conference` contributed by the client and by an
 extension is answered once -/
 example : (capabilities { cfgA with extFeatures := [["jabber:x:conference".toList]] }).feats =
